@@ -77,12 +77,29 @@ class Class:
         return "<Class %s>" % self.qual
 
 
+def _parse(src, path):
+    """The module's tree, assignment expressions written out as statements (tfsa/walrus.py; nothing to do on the pinned tree)."""
+    tree = ast.parse(src, filename=path)
+    from . import walrus
+    if ":=" in src:
+        try:
+            walrus.lower(tree)
+        except Exception:       # never a verdict: read the tree as written
+            tree = ast.parse(src, filename=path)
+    if "+=" in src:
+        try:
+            walrus.lower_augadd(tree)       # `seq += more` on a local list / bytearray is seq.extend(more)
+        except Exception:
+            pass
+    return tree
+
+
 class Module:
     def __init__(self, name, path, src, tree=None):
         self.name = name
         self.path = path
         self.src = src
-        self.tree = tree if tree is not None else ast.parse(src, filename=path)
+        self.tree = tree if tree is not None else _parse(src, path)
         self.digest = hashlib.sha256(src.encode("utf-8")).hexdigest()
         self.imports = {}     # local name -> dotted
         self.functions = {}   # top-level name -> Func
@@ -163,7 +180,7 @@ class Program:
                 with open(path, encoding="utf-8") as fh:
                     srcs[rel] = fh.read()
                 try:
-                    pre[rel] = ast.parse(srcs[rel], filename=path)
+                    pre[rel] = _parse(srcs[rel], path)
                 except SyntaxError as exc:
                     raise AnalysisError("cannot parse %s: %s" % (path, exc))
             try:
